@@ -7,6 +7,7 @@ import (
 	"math/big"
 	"strconv"
 	"strings"
+	"time"
 
 	"golang.org/x/text/unicode/norm"
 	"golang.org/x/text/width"
@@ -64,9 +65,11 @@ func init() {
 			}
 			return nil
 		},
-		"verifGoldenList":   func(x *Exec, fn *ssa.Function, a []Value) Value { return SliceV{Off: BVi(0, 64), Len: BVi(0, 64), Cap: BVi(0, 64)} },
+		"verifGoldenList": func(x *Exec, fn *ssa.Function, a []Value) Value {
+			return SliceV{Off: BVi(0, 64), Len: BVi(0, 64), Cap: BVi(0, 64)}
+		},
 		"verifStressRounds": func(x *Exec, fn *ssa.Function, a []Value) Value { return BVi(0, 64) },
-		"verifVerdict":       nil, // executed from SSA
+		"verifVerdict":      nil, // executed from SSA
 	}
 	delete(verifPrims, "verifVerdict")
 }
@@ -162,6 +165,11 @@ func pAssert(x *Exec, fn *ssa.Function, a []Value) Value {
 }
 
 func (x *Exec) assert(c *Term, label string) {
+	if x.havoc {
+		// reference-side re-execution: the implementation is stubbed, assertions about it mean nothing
+		// and must not constrain the inputs
+		return
+	}
 	c = x.simp(c)
 	x.applyExcludes()
 	x.nObl++
@@ -252,6 +260,10 @@ func constLang(v Value) int {
 func pGolden(x *Exec, fn *ssa.Function, a []Value) Value {
 	lg := constLang(a[0])
 	idx := asTerm(a[1])
+	if !idx.IsConst() && len(x.goldenIdx) < 64 {
+		x.goldenIdx = append(x.goldenIdx, idx)
+		x.goldenIdxLang = lg
+	}
 	x.addPC(Ult(idx, BVi(2048, 64)))
 	return x.mkStr([]Atom{tabTok(idx, x.goldenIDs(lg))})
 }
@@ -504,6 +516,21 @@ func (x *Exec) queryModel(extra []*Term) (string, map[int]*big.Int) {
 }
 
 func (x *Exec) query(extra []*Term, want []*Term) (string, []*big.Int) {
+	// an instance whose budget is spent, or that keeps running into solver timeouts, stops here
+	if x.inst != nil && !x.inst.deadline.IsZero() && time.Now().After(x.inst.deadline) {
+		panic(pathEnd{"bound", "instance time budget exhausted inside a path"})
+	}
+	if x.inst != nil && x.inst.solverTimeouts >= 4 {
+		panic(pathEnd{"bound", "four solver timeouts in this instance: giving up on it"})
+	}
+	r, v := x.query1(extra, want)
+	if r == "unknown" && x.inst != nil && strings.Contains(x.solver.lastErr, "timeout") {
+		x.inst.solverTimeouts++
+	}
+	return r, v
+}
+
+func (x *Exec) query1(extra []*Term, want []*Term) (string, []*big.Int) {
 	as := make([]*Term, 0, len(x.pc)+len(x.hfacts)+len(extra)+len(x.tokenVars))
 	for _, t := range x.pc {
 		as = append(as, x.simp(t))
